@@ -251,6 +251,10 @@ func (c *c04Case) build() (tpl string, data any, wantInst []string, wantElse boo
 		elseS = `<li v-else id="else">none</li>`
 	case "ws":
 		elseS = "\n  " + `<li v-else id="else">none</li>`
+	case "comment": // a comment between the loop and its v-else does not separate them (as in a v-if chain)
+		elseS = `<!-- shown when there is nothing to list -->` + `<li v-else id="else">none</li>`
+	case "wscomment":
+		elseS = "\n  <!-- c -->\n  " + `<li v-else id="else">none</li>`
 	case "far":
 		// the loop has no v-else of its own; a later, unrelated chain in the same parent has one
 		elseS = `<li class="sep">s</li><li v-if="t" class="chain">yes</li><li v-else id="else">none</li>`
@@ -644,7 +648,7 @@ func init() {
 	core.Register(&core.Check{
 		ID:    "C04",
 		Level: "exploration",
-		Rule: "every combination of collection kind (18: incl. slices with nil items, slices of any/int/int32/string/bool/map/struct (fields and the whole item printed)/*struct, array, pointer to slice / array, nil slice, nil value, missing) x length x access path x loop form (incl. the tight and padded spellings of (i, v)) x loop-variable name (fresh / shadows a map key / shadows a root struct field by name / by JSON tag / spelled with non-ASCII letters, digits, _ or $ / named like a function of the expression library) x v-else (none/adjacent/after whitespace) x looped element (plain, per-item v-if keeping some / no items, bindings, <template>, <template :key>, a body with an unevaluated <template> binding a variable named like the loop's) x root data (map/struct/*struct) x printing position ({{ }}, expression); the loop (with its v-else) as the whole content of a component file; plus nested loops; plus a body part: 25 ways a loop body can consume the item (text, deep text, interpolated/bound attribute, :class, :style, v-text, v-html, <template v-html>, v-show, inner v-if/v-else, <template :var>, include with bound / interpolated prop, slot content used once / twice, prop-less include, v-slot template without props, include without content, inner v-for, filters, pre, a <template> with plain attributes reached for one item only) x 1..3 items x loop form x looped element x entry point, with the oracle: instance i shows item i and no other item and equals the single instance of a loop over [item i] alone, and the outer variables named like the loop variables have their outer values before and after the loop. " +
+		Rule: "every combination of collection kind (18: incl. slices with nil items, slices of any/int/int32/string/bool/map/struct (fields and the whole item printed)/*struct, array, pointer to slice / array, nil slice, nil value, missing) x length x access path x loop form (incl. the tight and padded spellings of (i, v)) x loop-variable name (fresh / shadows a map key / shadows a root struct field by name / by JSON tag / spelled with non-ASCII letters, digits, _ or $ / named like a function of the expression library) x v-else (none / adjacent / after whitespace / after a comment / after both / none of its own, with an unrelated chain later) x looped element (plain, per-item v-if keeping some / no items, bindings, <template>, <template :key>, a body with an unevaluated <template> binding a variable named like the loop's) x root data (map/struct/*struct) x printing position ({{ }}, expression); the loop (with its v-else) as the whole content of a component file; plus nested loops; plus a body part: 25 ways a loop body can consume the item (text, deep text, interpolated/bound attribute, :class, :style, v-text, v-html, <template v-html>, v-show, inner v-if/v-else, <template :var>, include with bound / interpolated prop, slot content used once / twice, prop-less include, v-slot template without props, include without content, inner v-for, filters, pre, a <template> with plain attributes reached for one item only) x 1..3 items x loop form x looped element x entry point, with the oracle: instance i shows item i and no other item and equals the single instance of a loop over [item i] alone, and the outer variables named like the loop variables have their outer values before and after the loop. " +
 			"oracle: reference interpreter gives the instance list, for-else presence and the value of the loop variable's name before and after the loop. non-trivial = at least one item",
 		Bounds:      map[string]string{"quick": "lengths 0..2 in the full product, lengths up to 33 for 4 collection kinds, nesting depth 2", "thorough": "lengths 0..3, nesting depth 2"},
 		Assumptions: []string{"iteration over maps is C10's subject, not enumerated here"},
@@ -699,7 +703,7 @@ func init() {
 					}
 					for _, form := range []string{"x", "ix"} {
 						for _, elem := range []string{"plain", "vif", "bind", "tmpl", "tmplkey"} {
-							for _, els := range []string{"none", "adj", "ws"} {
+							for _, els := range []string{"none", "adj", "ws", "comment", "wscomment"} {
 								for _, v := range []string{"it", "outer"} {
 									emit(&c04Case{Coll: coll, Len: n, Path: "xs", Form: form, Var: v, Else: els, Elem: elem, Root: "map", Print: "must", Entry: "incroot"})
 								}
@@ -762,7 +766,7 @@ func init() {
 					for _, path := range []string{"xs", "o.xs"} {
 						for _, form := range []string{"x", "ix"} {
 							for _, v := range []string{"it", "outer", "Outer", "name", "Name"} {
-								for _, el := range []string{"none", "adj", "ws", "far"} {
+								for _, el := range []string{"none", "adj", "ws", "far", "comment", "wscomment"} {
 									for _, elem := range []string{"plain", "vif", "vifnone", "bind", "tmpl"} {
 										for _, root := range []string{"map", "struct", "ptr"} {
 											for _, pr := range []string{"must", "expr"} {
